@@ -255,6 +255,8 @@ class ModuleTranslator:
             dd = d.func if isinstance(d, ast.Call) else d
             root, chain = chain_of(dd) if isinstance(dd, (ast.Name, ast.Attribute)) else (None, None)
             decos.append((root.id, chain) if root is not None else None)
+        if n.name in ('__getattr__', '__getattribute__', '__dir__') and sc.kind in ('module', 'class'):
+            raise Abort(self.where(n) + 'a %s hook makes the symbol table of this %s dynamic: not understood' % (n.name, sc.kind))
         self.arguments_outer(n.args, sc)
         self.expr(n.returns, sc)
         sc.bind(n.name, ('Fd', sig_of(n.args), decos, sc))
@@ -280,7 +282,7 @@ class ModuleTranslator:
         cs = self.new_scope(sc.qual(n.name), 'class', n.lineno, sc)
         cs.simple = n.name
         cs.class_key = ckey
-        for x in ('__module__', '__qualname__', '__doc__'):
+        for x in ('__module__', '__qualname__', '__doc__', '__dict__', '__weakref__'):
             cs.bind(x)
         self.classes.append((ckey, cs, bases, sc))
         self.body(n.body, cs)
@@ -535,8 +537,10 @@ class World:
         _, base, name = kd
         if base in self.mods:
             k2 = self.mods[base].mod.final.get(name)
+            if (k2 is None or k2[0] == 'A') and (base + '.' + name) in self.mods:
+                return S(base + '.' + name)              # from package import submodule
             if k2 is None:
-                return S(base + '.' + name) if (base + '.' + name) in self.mods else O
+                return O
             return k2
         if base in self.live:
             obj = self.live[base]
@@ -617,6 +621,10 @@ class World:
             self.live.setdefault('builtins.object', object)
             self.ensure_table('builtins.object')
             out.append('builtins.object')
+        if 'builtins.type' not in out:          # attributes served by the metaclass: __name__, __mro__, mro, ...
+            self.live.setdefault('builtins.type', type)
+            self.ensure_table('builtins.type')
+            out.append('builtins.type')
         return out
 
     def ensure_table(self, key):
@@ -626,7 +634,10 @@ class World:
             return False
         obj = self.live[key]
         own = []
-        for name in sorted(set(dir(obj))):
+        names = set(dir(obj))
+        if isinstance(obj, type):
+            names |= set(dir(type(obj)))        # attributes served by the metaclass
+        for name in sorted(names):
             try:
                 v = getattr(obj, name)
             except Exception:
